@@ -30,6 +30,7 @@ CONSTANTS FLAVOUR,       \* "base" | "enumerable" | "consecutive"
           FromSet,       \* `from` of transfer_from / burn_from
           PreMode,       \* pre-minted tokens: "none" | "two" (see Pre / PreN below)
           DUs,           \* approval lifetimes: live_until - now  (plus the revoking 0)
+          PastDU,        \* TRUE: also live_until = now - 1 (TLC's cfg parser has no negative set elements)
           DTs,           \* ledgers advanced before a call
           MinTempTtl, MaxTtl, Now0, Depth,
           BUG,           \* "none" | "no_prev_marker" | "swap_index" | "keep_approval" (vacuity guard)
@@ -256,7 +257,7 @@ Obs(st, t) ==
 
 (* calls ------------------------------------------------------------------------------*)
 Auths(p) == IF AuthMode = "self" THEN {{p}} ELSE {{p}, Acct \ {p}}
-Untils(t) == {0} \cup {t + d : d \in DUs}
+Untils(t) == {0} \cup {t + d : d \in DUs} \cup (IF PastDU THEN {t - 1} ELSE {})
 
 Op(k, sp, from, to, id, n, until, auth) ==
   [op |-> k, sp |-> sp, from |-> from, to |-> to, id |-> id, n |-> n, until |-> until, auth |-> auth]
